@@ -1569,6 +1569,10 @@ func (vm *Thread) BuildStackTrace() *value.StackTrace {
 }
 
 func (vm *Thread) BuildStackTracePrepend(base *value.StackTrace) *value.StackTrace {
+	if base == nil {
+		// promises rejected without a stack trace (eg. `Promise.rejected`)
+		base = &value.StackTrace{}
+	}
 	callStack := vm.callStack()
 
 	stackTraceSlice := make([]value.CallFrame, 0, len(*base)+len(callStack)+1)
